@@ -285,7 +285,7 @@ Definition sum_duplicates_inplace (k : kind) (bs : list buf) (c : csr) : list bu
 
 (* --- from_array once the matrix exists: db.fp_names = list(names); update_names_map(); update_props(props) *)
 Definition props_fit (bs : list buf) (ps : list (string * nat)) (n : nat) : bool :=
-  forallb (fun kc => Nat.eqb (length (getP bs (snd kc))) n) ps.
+  forallb (fun kc => match aget (fst kc) ps with Some i => Nat.eqb (length (getP bs i)) n | None => true end) ps.   (* props_dict.items() *)
 
 Definition push_obj (s : state) (bs : list buf) (o : obj) : state :=
   mkst bs (objs s ++ [o]) (pool s ++ [length (objs s)]).
